@@ -80,7 +80,11 @@ def main():
         os.remove(demo_dst)
         # checks
         shutil.rmtree(vcopy, ignore_errors=True)
-        sh("rsync -a --exclude .git --exclude .work --exclude replays /verif/ %s/" % vcopy)
+        # the copy is the COMMITTED state of /verif (a builder may be half-way through delivering
+        # files into the working tree) plus the Lean build cache, which only saves rebuild time
+        os.makedirs(vcopy, exist_ok=True)
+        sh("git -C /verif archive HEAD | tar -x -C %s" % vcopy)
+        sh("rsync -a /verif/lean/.lake %s/lean/" % vcopy)
         sh(["git", "apply", patch], cwd=wt)
         res["checks"] = {}
         for c in checks:
